@@ -1,5 +1,5 @@
 #!/bin/bash
-# Re-run every stored seeded change against the current machinery (4 lanes; one property is never run twice at once).
+# Re-run every stored seeded change against the current machinery (5 lanes; one property is never run twice at once).
 # usage: tools/rerun_seeded.sh   (needs the scratch worktrees /tmp/mut/<ID>/wt at /repo's HEAD)
 cd "$(dirname "$0")/.." || exit 2
 lane() {
@@ -11,13 +11,14 @@ lane() {
       cp $d/patch.diff $d/demo.py /tmp/mut/$id/out/$k/ 2>/dev/null
       [ -f $d/notes.md ] && cp $d/notes.md /tmp/mut/$id/out/$k/
       by=$(python3 -c "import json,re;m=json.load(open('$d/meta.json'));r=re.search(r'check (C\d+)',m.get('check_run',{}).get('cmd',''));print(r.group(1) if r else '$id')")
-      echo "== $id $k (by $by): $(/venv/bin/python tools/confirm_seeded.py $id $k $by 2>&1 | grep -E '^check:|NOT CONFIRMED' | cut -c1-60 | tr '\n' ' ')"
+      echo "== $id $k (by $by): $(SEEDED_RERUN=1 /venv/bin/python tools/confirm_seeded.py $id $k $by 2>&1 | grep -E '^check:|NOT CONFIRMED' | cut -c1-60 | tr '\n' ' ')"
     done
   done
 }
-lane C01 C05 C09 C13 C17 > /tmp/rerun_lane1.log 2>&1 &
-lane C02 C06 C10 C14 C18 > /tmp/rerun_lane2.log 2>&1 &
-lane C03 C07 C11 C15 C19 > /tmp/rerun_lane3.log 2>&1 &
-lane C04 C08 C12 C16 C20 > /tmp/rerun_lane4.log 2>&1 &
+lane C01 C06 C11 C16 > /tmp/rerun_lane1.log 2>&1 &
+lane C02 C07 C12 C17 > /tmp/rerun_lane2.log 2>&1 &
+lane C03 C08 C13 C18 > /tmp/rerun_lane3.log 2>&1 &
+lane C04 C09 C14 C19 > /tmp/rerun_lane4.log 2>&1 &
+lane C05 C10 C15 C20 > /tmp/rerun_lane5.log 2>&1 &
 wait
 cat /tmp/rerun_lane?.log
